@@ -19,6 +19,12 @@ def run(ctx):
     specs += gen.gen_many(ctx.seed, n // 2, dict(CFG, p_market=0.5, p_window=0.8, window_kinds=['inside', 'left', 'right']), 'c18g_')
     for sp in specs:
         sp['opts']['n_inj'] = 3 if ctx.tier == 'quick' else 8
+    # split optimisation: prices of every interval land at the original steps (intervals of unequal length: partial last interval, DST)
+    spl = gen.gen_many(ctx.seed, n // 2, dict(CFG, p_coarse=0.0, p_periodic=0.0, freqs=['h', '30min'], T=(5, 11), tzs=[None, 'CET'], p_dst=0.8, p_unaligned_end=0.0), 'c18s_')
+    for sp in spl:
+        sp['opts']['split'] = {'h': '3h', '30min': '2h'}[sp['grid']['freq']]
+        sp['opts']['n_inj'] = 0
+    specs += spl
     specs = ctx.specs(specs)
     res = C.run_impl('prices', specs)
     exprs, owners = [], []
@@ -31,6 +37,9 @@ def run(ctx):
             continue
         prob = o['problem']
         pr = o['out']['prices']
+        if o.get('out_first') and o['out_first'].get('prices') != pr:
+            ctx.violation('impl-violation', {'spec': sp, 'observed': {'first extraction': o['out_first'].get('prices'), 'second extraction': pr},
+                                             'expected': 'decoding the same result twice gives the same price table'}, trigger={'what': 'extraction not repeatable'})
         y = duals_to_y(prob, o['duals'])
         # multipliers of nodal rows are READ FROM THE OUTPUT TABLE: y_N := -price(node, step)
         nrows = [i for i, t in enumerate(prob['cType']) if t == 'N']
@@ -65,6 +74,51 @@ def run(ctx):
             if inj['value'] > o['value'] + price * inj['d'] + 1e-5 * scale:
                 ctx.violation('impl-violation', {'spec': sp, 'observed': {'injection': inj, 'price': price, 'value': o['value']},
                                                  'expected': 'value(d) <= value + price*d'}, trigger={'what': 'supergradient'})
+    # ---- split results: the interval problems form a direct sum; the price table must certify optimality of the concatenated point
+    for sp, o in zip(specs, res):
+        s = o.get('split') if o.get('status') == 'ok' else None
+        if not isinstance(s, dict) or s.get('solve') != 'optimal' or not s.get('duals') or not s.get('out') or not s['out'].get('prices'):
+            continue
+        rows, ct, b, c, l, u = [], '', [], [], [], []
+        off = 0
+        for p in s['ops']:
+            for r in p['rows']:
+                rows.append([[j + off for j in r[0]], r[1]])
+            ct += p['cType']; b += p['b']; c += p['c']; l += p['l']; u += p['u']
+            off += len(p['c'])
+        big = {'c': c, 'l': l, 'u': u, 'rows': rows, 'b': b, 'cType': ct}
+        # duals are concatenated per class over the intervals, in interval order
+        y = []
+        cnt = {k: 0 for k in 'ULSN'}
+        sign = {'U': 1.0, 'L': -1.0, 'S': 1.0, 'N': 1.0}
+        du = s['duals']
+        for t in ct:
+            arr = du.get(t)
+            y.append(sign[t] * arr[cnt[t]] if arr is not None and cnt[t] < len(arr) else 0.0)
+            cnt[t] += 1
+        nrows = [i for i, t in enumerate(ct) if t == 'N']
+        rec = s.get('map_nodal_restr') or []
+        pr = s['out']['prices']
+        if len(nrows) != len(rec):
+            ctx.violation('impl-violation', {'spec': sp, 'mode': 'split', 'observed': {'nodal rows': len(nrows), 'recorded pairs': len(rec)}, 'expected': 'one recorded (step, node) per nodal row'},
+                          trigger={'what': 'record-mismatch'})
+            continue
+        missing = False
+        for k, i in enumerate(nrows):
+            t, node = rec[k]
+            col = pr.get('nodal price: ' + node)
+            if col is None or t >= len(col) or col[t] is None:
+                missing = True
+                break
+            y[i] = -col[t]
+        if missing:
+            ctx.violation('impl-violation', {'spec': sp, 'mode': 'split', 'observed': 'no nodal price reported at the original step of a nodal row',
+                                             'expected': 'a price per (node, step) with a nodal restriction, at the step of the original grid'}, trigger={'what': 'missing'})
+            continue
+        eps = C.q(2e-6 * (1 + abs(s['value'])))
+        exprs.append('(check_opt %s %s %s %s)' % (eps, C.lp(big), C.qvec(s['x']), C.qvec(y)))
+        owners.append((sp, {'mode': 'split'}))
+        ctx.count('mode:split')
     vals = C.run_coq_exprs('C18', 'Num LP Cert Mapping Dcf Corr', exprs, chunk=8)
     for (sp, o), ok in zip(owners, vals):
         ctx.cov['instances_validated'] += 1
